@@ -290,3 +290,27 @@ package metadatapart
 //@ effect[C01:next-part-only-after-a-read-that-delivered-nothing] every loop_continues() where n == 0
 //@ effect[C01:delivered-bytes-are-reported] every returns() where result == n
 //@ effect[C01:part-read-into-the-callers-buffer] every io.ReadCloser($r).Read($q) where same($q, p)
+
+// C01 / C08. UploadPartCopy: the bytes of the new part are the bytes of the requested range of the source object the
+// copy read (conditions judged first); a source part is shared instead of copied only when it is the wholly covered part,
+// has a content hash and lives in the destination's store, and only under a reference taken in this transaction;
+// what is recorded is recorded under the destination upload and part number of the request.
+//@ func (*metadataPartStorage).UploadPartCopy$1
+//@ property C01 C08
+//@ mode effects
+//@ trust nonnil metadatastore.MetadataStore.HeadObject
+//@ trust nonnil metadatastore.MetadataStore.HeadObjectVersion
+//@ effect[C01:range-read-from-the-source-that-was-judged] every mbs.createRangeReader(_, _, $o, $r)
+//@     needs before normalizeAndValidateRanges($rs, $sz) -> ($nr, $e)
+//@     where $e == nil && $o == srcObject && $sz == srcObject.Size && (len($nr) >= 1 ==> $r == $nr[0])
+//@ effect[C01:copy-conditions-judged-before-anything-is-recorded] every mbs.metadataStore.UploadPart(__) if opts != nil
+//@     needs before evaluateCopySourceConditions($c, $o) -> ($e) where $e == nil && $o == srcObject
+//@ effect[C01:part-recorded-under-the-requested-upload] every mbs.metadataStore.UploadPart(_, _, $b, $k, $u, $n, $p)
+//@     where $b == dstBucket && $k == dstKey && $u == uploadId && $n == partNumber
+//@ effect[C08:part-shared-only-when-wholly-covered-and-in-the-same-store] every mbs.metadataStore.TryAddPartReferences(_, _, $ids)
+//@     where coveredPart != nil && coveredPart.ChecksumSHA256 != nil && partStoreNamesEqual(coveredPart.StoreName, storeName) &&
+//@         len($ids) == 1 && $ids[0] == coveredPart.Id
+//@ effect[C08:fresh-copy-deduplicated-with-its-own-size-and-checksums] every mbs.dedupeFreshPart(_, _, $sn, $st, $id, $c, $sz)
+//@     needs before checksumutils.CalculateChecksumsStreaming(_, $rd, _) -> ($size, $cs, $e)
+//@     where $e == nil && $sz == *$size && $c == $cs && $id == *newPartId
+//@ effect[C08:replaced-parts-released] every returns() if err == nil needs before mbs.deleteUnreferencedParts(_, _, $u)
